@@ -242,6 +242,7 @@ impl<'a, C: MlsConfig> Hist<'a, C> {
         for (id, val) in &self.w.psks {
             h.psk.inner.lock().unwrap().insert(ext_psk_id(id), psk_value(val));
         }
+        h.idp.rejected.lock().unwrap().extend(self.w.rejected.iter().cloned());
         let client = (self.mk)(&s, &h, id, sk);
         self.w.log(format!(
             "client {} provider={} suite={} store={} R={} tree_ext={} single_welcome={} path_required={} enc_ctl={}",
@@ -272,6 +273,7 @@ impl<'a, C: MlsConfig> Hist<'a, C> {
             // re-joining (known finding F14, exercised by the directed scenario of C07), so the random
             // histories only bring back members that never persisted the group
             .filter(|&i| self.w.members[i].group.is_none() && !self.w.members[i].wrote && !self.kps.iter().any(|(j, _)| *j == i))
+            .filter(|&i| !self.w.rejected.contains(&self.w.members[i].identity))
             .collect()
     }
 
@@ -357,7 +359,12 @@ impl<'a, C: MlsConfig> Hist<'a, C> {
             }
             _ => 0,
         };
-        format!("{id},{kind},{snd},{src},{target},{}:{}:{},1,{pskid}", leaf.0, leaf.1, leaf.2)
+        // payload validity: the application refuses the identity of this key package (credential rejected by the identity provider)
+        let ok = match mls_rs::verif::proposal::leaf_keys(prop) {
+            Some((ident, _, _)) if kind == "add" && self.w.rejected.contains(&ident) => 0,
+            _ => 1,
+        };
+        format!("{id},{kind},{snd},{src},{target},{}:{}:{},{ok},{pskid}", leaf.0, leaf.1, leaf.2)
     }
 
     pub fn tap_broadcast(&mut self, mi: usize) {
@@ -477,6 +484,8 @@ impl<'a, C: MlsConfig> Hist<'a, C> {
         }
         // ---- offending by-reference proposals (must be dropped by the committer, C10) ----------------------
         let mut offenders = 0u64;
+        let mut revoke_after_delivery: Vec<Vec<u8>> = vec![];
+        let mut reinit_with_update = false;
         if self.rng.chance(self.prof.p_offend, 1000) {
             for _ in 0..self.rng.range(1, 3) {
                 let others: Vec<usize> = active.iter().copied().filter(|&i| i != c_pre).collect();
@@ -485,7 +494,7 @@ impl<'a, C: MlsConfig> Hist<'a, C> {
                 }
                 let p = *self.rng.pick(&others);
                 let pname = self.w.members[p].setup.name.clone();
-                let kind = self.rng.below(8);
+                let kind = self.rng.below(10);
                 let mut note = String::new();
                 let (r, m) = match kind {
                     0 => {
@@ -548,6 +557,59 @@ impl<'a, C: MlsConfig> Hist<'a, C> {
                         let Some(bl) = blank else { continue };
                         note = format!("OFFEND remove-nonexisting {bl}");
                         self.w.with_group(p, |g| g.propose_remove(bl, vec![]))
+                    }
+                    9 => {
+                        // a by-reference re-init next to a by-reference Update of another member: the re-init must be dropped
+                        // (it may only be committed alone)
+                        let free: Vec<usize> = active
+                            .iter()
+                            .copied()
+                            .filter(|&i| i != c_pre && !updaters.contains(&i) && !removed_targets.contains(&self.leaf_of(i)))
+                            .collect();
+                        let Some(&x) = free.first() else { continue };
+                        if reinit_with_update {
+                            continue;
+                        }
+                        updaters.push(x);
+                        let xname = self.w.members[x].setup.name.clone();
+                        let r = self.w.with_group(x, |g| g.propose_update(vec![]));
+                        self.w.log(format!("propose {xname} update (next to a re-init) -> {}", r.0.s()));
+                        if let Some(m) = r.1.clone() {
+                            let mi = self.w.push_msg("proposal", &xname, epoch, m, "update");
+                            round_props.push(mi);
+                            self.tap_broadcast(mi);
+                        } else {
+                            continue;
+                        }
+                        let suite = self.w.members[p].setup.suite;
+                        note = "OFFEND reinit-with-others".into();
+                        reinit_with_update = true;
+                        self.w.with_group(p, |g| g.propose_reinit(None, mls_rs::ProtocolVersion::MLS_10, CipherSuite::from(suite), Default::default(), vec![]))
+                    }
+                    8 => {
+                        // payload-invalid Adds: one to three outsiders are proposed while their credential is fine; before the commit
+                        // every member's application starts refusing those identities (revocation): the committer must drop
+                        // all of them, receivers must not see any
+                        let k = self.rng.range(1, 3);
+                        for _ in 0..k {
+                            let Some((o, kp)) = self.fresh_kp() else { break };
+                            self.kps.retain(|(j, _)| *j != o);
+                            let oid = self.w.members[o].identity.clone();
+                            // from now on this outsider is never picked again (the members start refusing it after delivery)
+                            self.w.rejected.push(oid.clone());
+                            let oname = self.w.members[o].setup.name.clone();
+                            let r = self.w.with_group(p, |g| g.propose_add(kp, vec![]));
+                            let note = format!("OFFEND add-revoked {oname}");
+                            self.w.log(format!("propose {pname} {note} -> {}", r.0.s()));
+                            if let Some(m) = r.1.clone() {
+                                let mi = self.w.push_msg("proposal", &pname, epoch, m, &note);
+                                round_props.push(mi);
+                                self.tap_broadcast(mi);
+                                offenders += 1;
+                                revoke_after_delivery.push(oid);
+                            }
+                        }
+                        continue;
                     }
                     7 => {
                         // two colluding members: x1's new leaf carries x2's current HPKE key, x2's new leaf carries the
@@ -631,6 +693,15 @@ impl<'a, C: MlsConfig> Hist<'a, C> {
                     }
                 }
             }
+        }
+        // revocations take effect now: every member's application refuses these identities from here on
+        if !revoke_after_delivery.is_empty() {
+            for id in revoke_after_delivery.drain(..) {
+                for m in &self.w.members {
+                    m.h.idp.rejected.lock().unwrap().push(id.clone());
+                }
+            }
+            self.rep.cover.insert("revoked-adds".into());
         }
         // ---- the commit -----------------------------------------------------------------------
         // committer: not a target of a pending removal (the library would filter that proposal anyway)
@@ -802,6 +873,15 @@ impl<'a, C: MlsConfig> Hist<'a, C> {
         };
         if !r.ok() {
             self.fail("C11", format!("{cname} could not apply its own commit m{cmi}: {}", r.s()));
+            return;
+        }
+        if matches!(cdesc.as_ref().map(|d| &d.effect), Some(CommitEffect::ReInit(_))) {
+            // a commit whose only proposal is a re-init: legitimate, the group is frozen from here on
+            if round_props.iter().filter(|mi| !self.w.msgs[**mi].note.contains("reinit")).count() > 0 && reinit_with_update {
+                self.fail("C10", format!("{cname} committed a re-init together with other proposals (m{cmi})"));
+            }
+            self.w.log("group re-initialised: history ends".into());
+            self.w.ended = true;
             return;
         }
         let applied_committer: Vec<&'static str> = match cdesc.as_ref().map(|d| &d.effect) {
@@ -1303,7 +1383,7 @@ impl<'a, C: MlsConfig> Hist<'a, C> {
         self.w.log("create A".into());
         for _ in 0..self.prof.rounds {
             self.round();
-            if self.rep.failures.len() > 20 {
+            if self.rep.failures.len() > 20 || self.w.ended {
                 break;
             }
         }
